@@ -734,4 +734,79 @@ Section C18.
       exact Hin.
     - rewrite map_map. cbn [fst snd]. exact Hnd.
   Qed.
+  (** the registry reading of an item-eligible (not substituted, namespaced, not Cow) enum
+      entry, one level unfolded *)
+  Lemma shape_reg_eligible_enum r s id X vs n :
+    resolve r id = Some X -> item_eligible s X = true ->
+    path_ident (t_path X) <> Some "Cow"%string -> t_def X = TDVariant vs ->
+    shape_reg r s (S n) id =
+    SEnum (map (fun v => (v_name v, v_index v, map (field_shape_reg r s n) (v_fields v))) vs).
+  Proof.
+    intros Hres He Hcow Hdef. cbn [shape_reg]. unfold entry_body. rewrite Hres.
+    rewrite cow_case_if, (is_cow_false _ Hcow), Hdef.
+    unfold item_eligible in He. apply andb_prop in He as [He Hns]. apply andb_prop in He as [_ Hsub].
+    apply negb_true_iff in Hsub. unfold subs_contains in Hsub. unfold named_shape.
+    destruct (t_path X) as [|a0 [|a1 pl]]; try discriminate Hns.
+    destruct (subs_get (s_subs s) (a0 :: a1 :: pl)); [discriminate|]. reflexivity.
+  Qed.
+
+  (** the same for the type AS NAMED by the generator for an enum id (generic or not): the
+      generated enum, read in the module with the arguments it was named with, encodes the
+      variant as the index byte followed by what the standalone struct (built from the
+      variant's field list with no parent parameters) encodes *)
+  Theorem standalone_payload_named r s teq m :
+    skeleton_consistent r s -> root_fresh s -> generate r s teq = Ok m ->
+    forall id X t vs v k u name docs n,
+      resolve r id = Some X -> item_eligible s X = true ->
+      path_ident (t_path X) <> Some "Cow"%string ->
+      resolve_type_path r s id = Ok t ->
+      t_def X = TDVariant vs -> In v vs -> NoDup (map v_index vs) ->
+      create_composite_ir_kind r s (v_fields v) [] [] = Ok (k, u) ->
+      let enum_sh := shape_rust m s (S n) t in
+      let struct_sh := item_shape m s n (upcast_composite s (mk_ci name k docs)) [] in
+      (forall vals,
+          encode P enum_sh (VEnum (v_index v) vals) =
+          match encode P struct_sh (VStruct vals) with
+          | Some e => Some (v_index v :: e)
+          | None => None
+          end) /\
+      (forall b,
+          decode P enum_sh (v_index v :: b) =
+          match decode P struct_sh b with
+          | Some (VStruct vals, rest) => Some (VEnum (v_index v) vals, rest)
+          | _ => None
+          end).
+  Proof.
+    intros Hs Hr Hg id X t vs v k u name docs n Hres He Hcow Ht Hdef Hin Hnd Hk enum_sh struct_sh.
+    assert (Hen : enum_sh =
+                  SEnum (map (fun v => (v_name v, v_index v, map (field_shape_reg r s n) (v_fields v))) vs)).
+    { unfold enum_sh. rewrite (generate_faithful r s teq m Hs Hr Hg (S n) id t Ht).
+      exact (shape_reg_eligible_enum r s id X vs n Hres He Hcow Hdef). }
+    assert (Hst : struct_sh = SStruct (map (field_shape_reg r s n) (v_fields v))).
+    { exact (standalone_faithful r s teq m Hs Hr Hg (v_fields v) k u name docs n Hk). }
+    rewrite Hen, Hst. apply (enum_payload _ (v_name v)).
+    - apply (in_map (fun v => (v_name v, v_index v, map (field_shape_reg r s n) (v_fields v)))).
+      exact Hin.
+    - rewrite map_map. cbn [fst snd]. exact Hnd.
+  Qed.
+
+  (** struct entries: the standalone struct built from the field list of a parameter-free
+      struct has the codec of the struct's own item *)
+  Theorem standalone_struct_codec r s teq m :
+    skeleton_consistent r s -> root_fresh s -> generate r s teq = Ok m ->
+    forall t flat ir fs k u name docs n,
+      params_from_scale_info (t_params t) = [] ->
+      create_type_ir r s t flat = Ok (Some ir) ->
+      t_def t = TDComposite fs ->
+      create_composite_ir_kind r s fs [] [] = Ok (k, u) ->
+      let struct_sh := item_shape m s n (upcast_composite s (mk_ci name k docs)) [] in
+      decode P (item_shape m s n ir []) = decode P struct_sh /\
+      encode P (item_shape m s n ir []) = encode P struct_sh.
+  Proof.
+    intros Hs Hr Hg t flat ir fs k u name docs n Hp Hir Hdef Hk struct_sh.
+    apply codec_depends_on_shape.
+    pose proof (param_free_item_body r s teq m Hs Hr Hg t flat ir n Hp Hir) as H.
+    rewrite Hdef in H. rewrite H. symmetry.
+    exact (standalone_faithful r s teq m Hs Hr Hg fs k u name docs n Hk).
+  Qed.
 End C18.
